@@ -101,6 +101,17 @@ func runC04(c c04Case) (*vh.Violation, vh.Outcome) {
 		if len(b.Payload) > 1000 {
 			o.Labels = append(o.Labels, "wire-digest-long-payload")
 		}
+		// the digest of a parsed message does not depend on what happens to the buffer it was parsed from
+		scratch := append([]byte{}, wire...)
+		u2, err := Unmarshal(scratch)
+		if err == nil {
+			for i := range scratch {
+				scratch[i] = 0xee
+			}
+			if [32]byte(u2.SigningMsg()) != wantDigest {
+				return vh.V("C04/digest-depends-on-input-buffer", "the digest of a parsed VAA changed when the buffer it was parsed from was reused"), o
+			}
+		}
 	}
 	// (b) header independence
 	w := c.V
